@@ -15,6 +15,7 @@ import GocoinV.Proofs.C12Chain
 import GocoinV.Proofs.C12RejAdm
 import GocoinV.Proofs.C12Example
 import GocoinV.Proofs.C12Resync
+import GocoinV.Proofs.C12Load
 import GocoinV.Proofs.C12PanicFlags
 import GocoinV.Proofs.C12PanicRbf
 import GocoinV.Proofs.C12PanicSort
@@ -370,7 +371,8 @@ theorem resync_step_inv (K : Keys) (W : Tx → Prop) (rank : TxId → Nat) (u0 :
   · exact ⟨setorder_full h f, setorder_rejInv h r, setorder_sort U h f.good⟩
 
 /-- … hence the three invariants hold along every trajectory of operations INTERLEAVED with resync edits (`rrun` over
-    `Move` = op | ring ks | sort ks, what the oracle really executes), provided each operation is admissible in the state it
+    `Move` = op | ring ks | sort ks | init k j, what the oracle really executes; `init` is a refused MempoolLoad /
+    InitMempool, see `refused_load_inv`), provided each operation is admissible in the state it
     is applied to (`RAdm`: its transactions are in `W`, `AdmOp`, `UndoOK` — for plain runs these are derived from `ValidRun`
     by `admRun_genesis` / `undoOK_of_full`; for resynced trajectories they are hypotheses). A trajectory without edits is a
     `run` (`rrun_ops`). -/
@@ -379,6 +381,53 @@ theorem resync_run_inv (K : Keys) (W : Tx → Prop) (rank : TxId → Nat) (u0 : 
     (f : Full K W u0 ν s) (r : RejInv K s) (q : SortInvP K s) :
     Full K W u0 ν (rrun K s ms) ∧ RejInv K (rrun K s ms) ∧ SortInvP K (rrun K s ms) :=
   rrun_inv U ms s ha f r q
+
+/-- REFUSED LOAD. MempoolLoad (disk.go) fills TransactionsToSend, SpentOutputs and the reject structures while it reads
+    mempool.dmp; when a read fails (the file was cut short by a crash during MempoolSave, is damaged, was written for
+    another tip, or is missing) it jumps to `fatal_error`, calls InitMempool() again and returns false, and the node
+    goes on (client/main.go ignores the result). `loadRefused K s k j` is the state it leaves when the file written from
+    `s` is cut after `k` pool records (`j = none`) or after the pool section and `j` rejected records (`j = some n`).
+    For all cut positions and every state `s` satisfying `Full` and `RejInv`:
+    (1) that state satisfies `Full` (structural invariant ∧ chain side ∧ PoolInv when alive), `RejInv` and `SortInvP`;
+    (2) it is the freshly initialised pool `initMempool s` over the unchanged configuration and chain side — the cut
+        position shows at most in the sticky panic flag (raised iff OneTxRejected.Add panicked while the rejected records
+        were read; for `j = none` it is literally `initMempool s`, `loadRefused_eq_none`);
+    (3) TransactionsToSend, SpentOutputs, TransactionsRejected, the reject ring, WaitingForInputs, RejectedSpentOutputs
+        and the sorted list are empty, SortListDirty = false.
+    Hence (with `resync_run_inv`, whose `Move` now has `init`) the invariants hold along every trajectory in which refused
+    loads (crash-truncated / damaged / foreign-tip / missing mempool.dmp) or the text-UI command `mempool purge`
+    (InitMempool() alone = `init k none`) occur between operations. What half-loaded state the second InitMempool()
+    wipes out, and that it matters, is `partial_load_counterexample` below. -/
+theorem refused_load_inv (K : Keys) (W : Tx → Prop) (u0 : UT) (ν : OutPoint → Nat) (s : State) (k : Nat)
+    (j : Option Nat) (f : Full K W u0 ν s) (r : RejInv K s) :
+    (Full K W u0 ν (loadRefused K s k j) ∧ RejInv K (loadRefused K s k j) ∧ SortInvP K (loadRefused K s k j)) ∧
+    loadRefused K s k j = { initMempool s with panicked := (loadPartial K s k j).panicked } ∧
+    ((loadRefused K s k j).pool = [] ∧ (loadRefused K s k j).spent = [] ∧ (loadRefused K s k j).rej = [] ∧
+     (loadRefused K s k j).ring = [] ∧ (loadRefused K s k j).waiting = [] ∧ (loadRefused K s k j).rejSpent = [] ∧
+     (loadRefused K s k j).sorted = [] ∧ (loadRefused K s k j).sortDirty = false) :=
+  ⟨loadRefused_inv s k j f r, loadRefused_eq K s k j, rfl, rfl, rfl, rfl, rfl, rfl, rfl, rfl⟩
+
+/-- A LISTING TAKEN WHILE A BLOCK COMMIT IS IN PROGRESS. Between BlockCommitInProgress(true) and (false) the chain calls
+    BlockUndone / BlockMined once per block and TxMutex is free in between and afterwards: another thread of the node (RPC
+    getblocktemplate, web / text UI) can list the pool there. While SortingDisabled is set AddToSort / DelFromSort do not
+    touch the BestT2S…WorstT2S list, they only raise SortListDirty — so the listing is right only because buildSortedList
+    (the model's `.resort`) rebuilds a dirty list WHATEVER SortingDisabled says: after it the list is not dirty and holds
+    exactly GetSortedMempoolSlow's result when it was dirty; the flag changes nothing else in the result. In the history
+    theorems `.commitFlag`, `.block`, `.undo` and `.resort` are independent operations, so `sorted_list_inv` /
+    `template_from_pool` already speak about listings taken inside a commit (`… .commitFlag true, .block …, .resort, …`);
+    the harness now drives the real code through these states (a listing after every BlockMined / BlockUndone callback). -/
+theorem listing_during_commit (K : Keys) (s : State) :
+    (step K s .resort).sortDirty = false ∧
+    (step K s .resort).sorted = getSorted K s ∧
+    (step K s .resort).sortDisabled = s.sortDisabled ∧
+    step K { s with sortDisabled := true } .resort = { step K s .resort with sortDisabled := true } := by
+  show (buildSorted K s).sortDirty = false ∧ (buildSorted K s).sorted = getSorted K s ∧
+    (buildSorted K s).sortDisabled = s.sortDisabled ∧
+    buildSorted K { s with sortDisabled := true } = { buildSorted K s with sortDisabled := true }
+  unfold buildSorted getSorted
+  cases hd : s.sortDirty with
+  | true => exact ⟨rfl, rfl, rfl, rfl⟩
+  | false => exact ⟨by simp [hd], by simp, by simp, by simp [hd]⟩
 
 /-- PANIC BRANCHES PROVED UNREACHABLE (beyond the reject-related ones of `reject_index_inv`). In a state satisfying the
     carried invariants:
@@ -427,6 +476,35 @@ def txB : Tx := { id := 8, ins := [⟨7, 0, 0⟩], outs := [40], nws := 100, siz
 def txD : Tx := { id := 9, ins := [⟨1, 0, 0⟩, ⟨1, 0, 0⟩], outs := [40], nws := 100, size := 100, scriptOk := true }
 def s0 : State := { utxo := [((1, 0), ⟨60, 1, false⟩)], height := 5 }
 def s2 : State := (submitNet K0 0 (submitNet K0 0 s0 txA false).2 txB false).2
+
+/-- a second spend of the coin (1,0) that txA spends -/
+def txA2 : Tx := { id := 12, ins := [⟨1, 0, 0⟩], outs := [30], nws := 100, size := 100, scriptOk := true }
+def txL : Tx := { id := 13, ins := [⟨2, 0, 0⟩], outs := [55], nws := 100, size := 100, scriptOk := true }
+/-- two confirmed coins (1,0), (2,0); txL (spends (2,0)) and then txA (spends (1,0)) pooled: the record of txA comes
+    first in `sL.pool`, i.e. in the file written from `sL` -/
+def sL : State := (submitNet K0 0 (submitNet K0 0
+  { utxo := [((1, 0), ⟨60, 1, false⟩), ((2, 0), ⟨60, 1, false⟩)], height := 5 } txL false).2 txA false).2
+
+/-- WHY THE SECOND InitMempool() IS NEEDED (a concrete instance, checked by evaluation). `sL` pools txL (id 13, spends
+    the confirmed coin (2,0)) and txA (id 7, spends (1,0)); SpentOutputs = {(1,0) ↦ 7, (2,0) ↦ 13}. A mempool.dmp written
+    from `sL` and cut after its first pool record leaves MempoolLoad, at the `goto fatal_error`, in the half-loaded state
+    `loadPartial K0 sL 1 none`: txA is in TransactionsToSend, SpentOutputs is still empty (it is rebuilt only after the
+    whole pool section). If the node went on from THERE, the conflicting spend txA2 (id 12, spends (1,0) too) would be
+    accepted (code 0, no panic) NEXT TO txA: the pool then holds 12 and 7, both with the input (1,0) — two pooled
+    transactions spending the same output, the very thing C12 excludes. From the state the code really leaves,
+    `loadRefused K0 sL 1 none` (after the second InitMempool()), the same submission leaves a pool holding only 12; and on
+    the complete `sL` it is handled as a replacement of txA (pool 12, 13). -/
+theorem partial_load_counterexample :
+    sL.pool.map (·.1) = [7, 13] ∧ sL.spent = [(1000, 7), (2000, 13)] ∧ sL.panicked = false ∧
+    (loadPartial K0 sL 1 none).pool.map (·.1) = [7] ∧ (loadPartial K0 sL 1 none).spent = [] ∧
+    (submitNet K0 0 (loadPartial K0 sL 1 none) txA2 false).1 = 0 ∧
+    (submitNet K0 0 (loadPartial K0 sL 1 none) txA2 false).2.panicked = false ∧
+    (submitNet K0 0 (loadPartial K0 sL 1 none) txA2 false).2.pool.map
+      (fun p => (p.1, p.2.tx.ins.map fun i => (i.prev, i.vout))) = [(12, [(1, 0)]), (7, [(1, 0)])] ∧
+    (submitNet K0 0 (loadRefused K0 sL 1 none) txA2 false).1 = 0 ∧
+    (submitNet K0 0 (loadRefused K0 sL 1 none) txA2 false).2.pool.map (·.1) = [12] ∧
+    (submitNet K0 0 sL txA2 false).1 = 0 ∧ (submitNet K0 0 sL txA2 false).2.pool.map (·.1) = [12, 13] := by
+  decide
 
 example : (submitNet K0 0 s0 txA false).1 = 0 := by decide
 example : (processTx K0 0 s0 txD {}).1 = R_BAD_INPUT := by decide
@@ -562,6 +640,29 @@ example : RejInv K3 (run K3 (genesis {} u3 0) ops3) := by
     rcases ho with rfl | rfl | rfl | rfl | rfl <;> simp [Op.txs] at ht <;> simp [W2, ht]
   · simp [ops3, ValidRun, ValidOp]
   · decide
+-- refused loads: on the state after `ops3` (txA, txB pooled) with every cut position; and inside a trajectory — a
+-- refused load between two submissions of txA (the second one is accepted again: the pool was emptied)
+example : ∀ k j, Full K3 W2 u3 ν3 (loadRefused K3 (run K3 (genesis {} u3 0) ops3) k j) ∧
+    RejInv K3 (loadRefused K3 (run K3 (genesis {} u3 0) ops3) k j) ∧
+    SortInvP K3 (loadRefused K3 (run K3 (genesis {} u3 0) ops3) k j) := by
+  have hW : ∀ op ∈ ops3, ∀ t ∈ op.txs, W2 t := by
+    intro op ho t ht
+    simp only [ops3, List.mem_cons, List.not_mem_nil, or_false] at ho
+    rcases ho with rfl | rfl | rfl | rfl | rfl <;> simp [Op.txs] at ht <;> simp [W2, ht]
+  have hv : ValidRun K3 u3 (genesis {} u3 0) ops3 := by simp [ops3, ValidRun, ValidOp]
+  have f := run_full univ3 ops3 _ (full_genesis univ3 {} 0) hW (admRun_genesis univ3 {} 0 ops3 hW hv)
+  have r := reject_index_inv K3 W2 id u3 ν3 univ3 {} 0 (by decide) ops3 hW hv (by decide)
+  intro k j
+  exact (refused_load_inv K3 W2 u3 ν3 _ k j f r).1
+def ms5 : List Move := [.op (.tip 5), .op (.submitNet txA false 0), .init 1 none, .op (.submitNet txA false 0)]
+example : Full K3 W2 u3 ν3 (rrun K3 (genesis {} u3 0) ms5) ∧ RejInv K3 (rrun K3 (genesis {} u3 0) ms5) ∧
+    SortInvP K3 (rrun K3 (genesis {} u3 0) ms5) := by
+  refine resync_run_inv K3 W2 id u3 ν3 univ3 ms5 _ ?_ (full_genesis univ3 {} 0) (rejInv_genesis K3 {} u3 0 (by decide))
+    (sort_genesis K3 {} u3 0)
+  simp [ms5, RAdm, AdmOp, UndoOK, Op.txs, W2]
+example : (rrun K3 (genesis {} u3 0) (ms5.take 2)).pool.map (·.1) = [7] ∧
+    (rrun K3 (genesis {} u3 0) (ms5.take 3)).pool.map (·.1) = [] ∧
+    (rrun K3 (genesis {} u3 0) ms5).pool.map (·.1) = [7] := by decide
 example : ChainInv u3 ν3 (genesis {} u3 0) := chainInv_genesis univ3 {} 0
 example : BlockValid u3 (genesis {} u3 0) [txA, txB] := by
   refine ⟨?_, ?_, ?_⟩
